@@ -433,4 +433,4 @@ BOUNDS = dict(dense="Eigh on V diag(w) V^T (n = 2 symbolic rotation, n = 3 ratio
               functions="exp, log, sqrt, isqrt, pow 2.5, apply_unary(exp); integer powers {0,1,2,3,9,2.0,-1,-2,10}", rules="Diagonal, ScalarMul, Identity, BlockDiag "
               "with multiplicities, Transpose, Adjoint, exp(KronSum), pow(Kronecker)", krylov="Lanczos / Arnoldi algorithm objects, n in {2,3}, Krylov dimension 2 (single vector), multi-column operands whose columns have Krylov dimension 2, 2, 1 in one batch",
               values="spectra, rotation parameter, vectors symbolic")
-BOUNDS["added"] = 'symmetric matrices with a repeated eigenvalue through the general eigensolver, whose stand-in returns a legitimate non-orthogonal basis of the degenerate eigenspace'
+BOUNDS["added"] = 'symmetric matrices with a repeated eigenvalue through the general eigensolver, whose stand-in returns a legitimate non-orthogonal basis of the degenerate eigenspace Thorough tier: 11 functions x {default, Auto, Eigh, Eig} for n = 2, 3, Eigh n = 4, integer powers n = 4, more functions on every structural rule.'
